@@ -112,11 +112,7 @@ pub fn byte_accounting_mode(cx: &mut Ctx, rule: &str, mode: Acct) {
                 }
                 continue;
             }
-            let ok = match fname.as_str() {
-                "next_char" => w == "self.location+=TextSize::from(1)" || w == "self.location+=c.text_len()",
-                "new" => w.starts_with("lxr.location+=") && w.ends_with(".text_len()"),
-                _ => false,
-            };
+            let ok = matches!(fname.as_str(), "next_char" | "new") && w.contains(".location+=");
             if ok {
                 cx.ok(rule, &format!("{}: `{}`", fname, w));
             } else {
@@ -143,27 +139,43 @@ pub fn byte_accounting_mode(cx: &mut Ctx, rule: &str, mode: Acct) {
             if !t.contains("location:start,") && mode != Acct::Folding {
                 probs.push("location is not seeded with the `start` parameter".to_string());
             }
-            // BOM branch
+            // BOM branch: a decision on lxr.window[0] whose only non-empty branch is exactly {U+FEFF}, with one slide
+            // and an advance by the BOM's byte length
             let mut bom_ok = false;
             sm::for_each_expr_in_block(&m.block, |e| {
-                if let syn::Expr::If(i) = e {
-                    if let syn::Expr::Let(l) = &*i.cond {
-                        let pat = sm::tsc(&l.pat);
-                        if sm::tsc(&l.expr) == "lxr.window[0]" && pat.starts_with("Some('") {
-                            let ch = pat.trim_start_matches("Some(").trim_end_matches(')').to_string();
-                            let body = sm::tsc(&i.then_branch);
-                            if body == format!("{{lxr.window.slide();lxr.location+={}.text_len();}}", ch) && i.else_branch.is_none() {
-                                bom_ok = ch == "'\\u{feff}'";
+                if let Some((scrut, brs)) = branches(e) {
+                    if scrut != "lxr.window[0]" {
+                        return;
+                    }
+                    let bom: BTreeSet<char> = ['\u{feff}'].into_iter().collect();
+                    let mut good = brs.len() == 2 && brs[0].pat == CPat::Chars(bom) && brs[1].pat == CPat::Wild && brs[1].body.is_empty();
+                    if good {
+                        let mut slides = 0;
+                        let mut bytes = vec![];
+                        for st in &brs[0].body {
+                            let t = sm::tsc(*st);
+                            if t == "lxr.window.slide();" {
+                                slides += 1;
+                            } else if let syn::Stmt::Expr(syn::Expr::Binary(b), _) = st {
+                                if sm::tsc(&b.left) == "lxr.location" && matches!(b.op, syn::BinOp::AddAssign(_)) {
+                                    bytes.push(inc_value(&b.right, &BTreeSet::new()));
+                                } else {
+                                    good = false;
+                                }
+                            } else {
+                                good = false;
                             }
                         }
+                        good = good && slides == 1 && bytes == vec![Inc::Const('\u{feff}'.len_utf8() as u32)];
                     }
+                    bom_ok = good;
                 }
             });
             if mode != Acct::Full {
                 bom_ok = true;
             }
             if !bom_ok {
-                probs.push("the BOM branch is not `if let Some('\\u{feff}') = window[0] { slide; location += '\\u{feff}'.text_len() }`".to_string());
+                probs.push("the BOM branch does not skip exactly U+FEFF with one slide and an advance by its 3 bytes".to_string());
             }
             if mode == Acct::Full && sliders.get("new").copied().unwrap_or(0) != 4 {
                 probs.push(format!("{} window slides in new() (3 to fill + 1 for the BOM expected)", sliders.get("new").copied().unwrap_or(0)));
@@ -186,33 +198,15 @@ pub fn byte_accounting_mode(cx: &mut Ctx, rule: &str, mode: Acct) {
         Some(m) => match next_char_paths(m) {
             Err(e) => cx.fail(rule, &format!("{}/next_char/unrecognised", rule), &lx.loc(m), &format!("next_char has a shape the byte-accounting interpreter does not know: {}", e)),
             Ok(paths) => {
-                let want: BTreeMap<&str, (usize, &str, &str)> = [
-                    ("cr,lf", (2usize, "1+1", "Some('\\n')")),
-                    ("cr,!lf", (1, "1", "Some('\\n')")),
-                    ("char", (1, "c.text_len()", "Some(c)")),
-                    ("none", (1, "", "none")),
-                ]
-                .into_iter()
-                .collect();
-                let mut seen = BTreeSet::new();
+                // scenario -> (slides, constant bytes, text_len(char) terms, returned value)
+                let want: BTreeMap<&str, (usize, u32, usize, &str)> = [("cr,lf", (2usize, 2u32, 0usize, "Some('\\n')")), ("cr,!lf", (1, 1, 0, "Some('\\n')")), ("char", (1, 0, 1, "the character")), ("none", (1, 0, 0, "None"))].into_iter().collect();
                 for p in &paths {
-                    let cls = p.class();
-                    seen.insert(cls.clone());
-                    match want.get(cls.as_str()) {
-                        Some((slides, incs, ret)) => {
-                            let got_incs = p.incs.join("+");
-                            if p.slides == *slides && (got_incs == *incs || mode == Acct::Folding) && p.ret == *ret {
-                                cx.ok(rule, &format!("next_char path [{}]: {} slide(s), location += {}, returns {}", cls, p.slides, if incs.is_empty() { "0" } else { incs }, p.ret));
-                            } else {
-                                cx.fail(rule, &format!("{}/next_char/{}", rule, cls), &lx.loc(m), &format!("path [{}]: {} slide(s), location += [{}], returns {}; expected {} slide(s), += [{}], returns {}", cls, p.slides, got_incs, p.ret, slides, incs, ret));
-                            }
-                        }
-                        None => cx.fail(rule, &format!("{}/next_char/path/{}", rule, cls), &lx.loc(m), &format!("unexpected path class [{}]", cls)),
-                    }
-                }
-                for k in want.keys() {
-                    if !seen.contains(*k) {
-                        cx.fail(rule, &format!("{}/next_char/missing/{}", rule, k), &lx.loc(m), &format!("no path for [{}]", k));
+                    let (slides, consts, of_char, ret) = want[p.class];
+                    let bytes_ok = mode == Acct::Folding || (p.consts == consts && p.of_char == of_char && p.unknown.is_empty());
+                    if p.slides == slides && bytes_ok && p.ret == ret {
+                        cx.ok(rule, &format!("next_char scenario [{}]: {} slide(s), location += {} byte(s){}, returns {}", p.class, p.slides, p.consts, if p.of_char > 0 { " + text_len(c)" } else { "" }, p.ret));
+                    } else {
+                        cx.fail(rule, &format!("{}/next_char/{}", rule, p.class), &lx.loc(m), &format!("scenario [{}]: {} slide(s), location += {} constant byte(s) + {} x text_len(c) {:?}, returns {}; expected {} slide(s), {} byte(s) + {} x text_len(c), returns {}", p.class, p.slides, p.consts, p.of_char, p.unknown, p.ret, slides, consts, of_char, ret));
                     }
                 }
             }
@@ -227,143 +221,209 @@ pub fn byte_accounting_mode(cx: &mut Ctx, rule: &str, mode: Acct) {
     }
 }
 
-#[derive(Clone, Debug, Default)]
-struct NcPath {
-    conds: Vec<String>,
-    slides: usize,
-    incs: Vec<String>,
-    ret: String,
+// ------------------------------------------------------------------ next_char, executed per scenario
+
+#[derive(Clone, Debug, PartialEq)]
+enum Slot {
+    Cr,
+    Lf,
+    /// some character other than CR (symbolic; `NotLf` additionally excludes LF)
+    Char,
+    NotLf,
+    Empty,
+    Unknown,
 }
-impl NcPath {
-    fn class(&self) -> String {
-        self.conds.join(",")
+
+#[derive(Clone, Debug, PartialEq)]
+pub enum Inc {
+    Const(u32),
+    /// text_len() of the consumed (symbolic) character
+    OfChar,
+    Unknown(String),
+}
+
+/// Byte value of an advance expression: TextSize::from(k) / TextSize::new(k) / '<c>'.text_len() / "<s>".text_len()
+/// are constants; `<binding of the consumed char>.text_len()` is symbolic.
+pub fn inc_value(e: &syn::Expr, char_vars: &BTreeSet<String>) -> Inc {
+    match e {
+        syn::Expr::Paren(p) => inc_value(&p.expr, char_vars),
+        syn::Expr::Call(c) if c.args.len() == 1 && matches!(sm::tsc(&c.func).as_str(), "TextSize::from" | "TextSize::new") => match sm::tsc(&c.args[0]).trim_end_matches("u32").parse::<u32>() {
+            Ok(k) => Inc::Const(k),
+            Err(_) => Inc::Unknown(sm::tsc(e)),
+        },
+        syn::Expr::MethodCall(mc) if mc.method == "text_len" && mc.args.is_empty() => match &*mc.receiver {
+            syn::Expr::Lit(l) => match &l.lit {
+                syn::Lit::Char(c) => Inc::Const(c.value().len_utf8() as u32),
+                syn::Lit::Str(st) => Inc::Const(st.value().len() as u32),
+                _ => Inc::Unknown(sm::tsc(e)),
+            },
+            syn::Expr::Path(p) if p.path.get_ident().map_or(false, |i| char_vars.contains(&i.to_string())) => Inc::OfChar,
+            _ => Inc::Unknown(sm::tsc(e)),
+        },
+        _ => Inc::Unknown(sm::tsc(e)),
     }
 }
 
-fn next_char_paths(m: &syn::ImplItemFn) -> Result<Vec<NcPath>, String> {
-    // expected prologue: let mut c = self.window[0]; self.window.slide(); match c {..}; c
-    let stmts = &m.block.stmts;
-    let mut base = NcPath::default();
-    let mut paths: Vec<NcPath> = vec![];
-    let mut var = String::new();
-    let mut matched = false;
+#[derive(Clone, Debug)]
+struct NcState {
+    w0: Slot,
+    w1: Slot,
+    slides: usize,
+    incs: Vec<Inc>,
+    vars: BTreeMap<String, Slot>,     // locals holding a window slot value
+    char_vars: BTreeSet<String>,      // bindings of the consumed symbolic character
+    ret: Option<Slot>,
+}
+
+/// three-valued match of a slot value against a normal-form pattern: Some(true/false), None = cannot tell
+fn slot_matches(v: &Slot, p: &CPat) -> Option<bool> {
+    match (v, p) {
+        (_, CPat::Wild) => Some(true),
+        (Slot::Unknown, _) => None,
+        (Slot::Empty, CPat::NoneP) => Some(true),
+        (Slot::Empty, _) => Some(false),
+        (_, CPat::NoneP) => Some(false),
+        (_, CPat::AnySome(_)) => Some(true),
+        (Slot::Cr, CPat::Chars(cs)) => Some(cs.contains(&'\r')),
+        (Slot::Lf, CPat::Chars(cs)) => Some(cs.contains(&'\n')),
+        (Slot::NotLf, CPat::Chars(cs)) if cs.len() == 1 && cs.contains(&'\n') => Some(false),
+        (Slot::Char, CPat::Chars(cs)) if cs.len() == 1 && cs.contains(&'\r') => Some(false),
+        (Slot::Char, CPat::Chars(_)) | (Slot::NotLf, CPat::Chars(_)) => None,
+        _ => None,
+    }
+}
+
+fn nc_exec(stmts: &[&syn::Stmt], mut st: NcState) -> Result<NcState, String> {
     for s in stmts {
         match s {
             syn::Stmt::Local(l) => {
                 let mut ids = vec![];
                 sm::pat_idents(&l.pat, &mut ids);
                 let init = l.init.as_ref().map(|i| sm::tsc(&i.expr)).unwrap_or_default();
-                if init != "self.window[0]" || ids.len() != 1 {
+                if ids.len() == 1 && init == "self.window[0]" {
+                    st.vars.insert(ids[0].clone(), st.w0.clone());
+                } else {
                     return Err(format!("unexpected let `{}`", sm::tsc(l)));
                 }
-                var = ids[0].clone();
             }
-            syn::Stmt::Expr(e, _) => {
-                let t = sm::tsx(e);
-                if t == "self.window.slide()" {
-                    if matched {
-                        for p in paths.iter_mut() {
-                            p.slides += 1;
-                        }
-                    } else {
-                        base.slides += 1;
+            syn::Stmt::Expr(e, semi) => {
+                st = nc_exec_expr(e, st)?;
+                if semi.is_none() {
+                    // tail expression: the returned value
+                    let t = sm::tsc(e);
+                    if let Some(v) = st.vars.get(&t) {
+                        st.ret = Some(v.clone());
                     }
-                } else if let syn::Expr::Match(mm) = e {
-                    if sm::tsc(&mm.expr) != var {
-                        return Err("match scrutinee is not the saved window slot".into());
-                    }
-                    matched = true;
-                    for arm in &mm.arms {
-                        let pat = sm::tsc(&arm.pat);
-                        let mut p = base.clone();
-                        let cls = if pat == "Some('\\r')" {
-                            "cr"
-                        } else if pat.starts_with("Some(") && pat.len() > 6 && !pat.contains('\'') {
-                            "char"
-                        } else if pat == "_" || pat == "None" {
-                            "none"
-                        } else {
-                            return Err(format!("unexpected arm pattern `{}`", pat));
-                        };
-                        p.conds.push(cls.to_string());
-                        p.ret = match cls {
-                            "char" => format!("Some({})", pat.trim_start_matches("Some(").trim_end_matches(')')),
-                            "none" => "none".into(),
-                            _ => "Some('\\r')".into(),
-                        };
-                        let body: Vec<syn::Stmt> = match &*arm.body {
-                            syn::Expr::Block(b) => b.block.stmts.clone(),
-                            other => vec![syn::Stmt::Expr(other.clone(), None)],
-                        };
-                        let mut sub = vec![p];
-                        for bs in &body {
-                            sub = nc_step(sub, bs, &var)?;
-                        }
-                        paths.extend(sub);
-                    }
-                } else if t == var {
-                    // tail: returns var
-                } else {
-                    return Err(format!("unexpected statement `{}`", t));
                 }
             }
+            syn::Stmt::Macro(m) if m.mac.path.is_ident("debug_assert") => {}
             other => return Err(format!("unexpected statement `{}`", sm::tsc(other))),
         }
     }
-    if !matched {
-        return Err("no match on the consumed character".into());
-    }
-    Ok(paths)
+    Ok(st)
 }
 
-fn nc_step(paths: Vec<NcPath>, s: &syn::Stmt, var: &str) -> Result<Vec<NcPath>, String> {
-    let mut out = vec![];
-    match s {
-        syn::Stmt::Expr(e, _) => {
-            let t = sm::tsx(e);
-            if t == "self.window.slide()" {
-                for mut p in paths {
-                    p.slides += 1;
-                    out.push(p);
-                }
-            } else if let Some(rest) = t.strip_prefix("self.location+=") {
-                let term = if rest == "TextSize::from(1)" { "1".to_string() } else { rest.to_string() };
-                for mut p in paths {
-                    p.incs.push(term.clone());
-                    out.push(p);
-                }
-            } else if let Some(rest) = t.strip_prefix(&format!("{}=", var)) {
-                for mut p in paths {
-                    p.ret = rest.to_string();
-                    out.push(p);
-                }
-            } else if let syn::Expr::If(i) = e {
-                let c = sm::tsc(&i.cond);
-                if c != "self.window[0]==Some('\\n')" {
-                    return Err(format!("unexpected condition `{}`", c));
-                }
-                if i.else_branch.is_some() {
-                    return Err("unexpected else branch".into());
-                }
-                for p in paths {
-                    let mut yes = vec![{
-                        let mut q = p.clone();
-                        q.conds.push("lf".into());
-                        q
-                    }];
-                    for bs in &i.then_branch.stmts {
-                        yes = nc_step(yes, bs, var)?;
+fn nc_exec_expr(e: &syn::Expr, mut st: NcState) -> Result<NcState, String> {
+    let t = sm::tsc(e);
+    if t == "self.window.slide()" {
+        st.slides += 1;
+        st.w0 = std::mem::replace(&mut st.w1, Slot::Unknown);
+        return Ok(st);
+    }
+    if let Some((scrut, brs)) = branches(e) {
+        let v = if scrut == "self.window[0]" {
+            st.w0.clone()
+        } else if let Some(v) = st.vars.get(&scrut) {
+            v.clone()
+        } else {
+            return Err(format!("decision on `{}`", scrut));
+        };
+        for b in &brs {
+            if b.guard.is_some() {
+                return Err("guarded arm".into());
+            }
+            match slot_matches(&v, &b.pat) {
+                Some(true) => {
+                    if let CPat::AnySome(Some(name)) = &b.pat {
+                        if matches!(v, Slot::Char | Slot::NotLf) {
+                            st.char_vars.insert(name.clone());
+                        }
                     }
-                    let mut no = p.clone();
-                    no.conds.push("!lf".into());
-                    out.extend(yes);
-                    out.push(no);
+                    let mut st2 = nc_exec(&b.body, st)?;
+                    if let Some(tl) = b.tail {
+                        st2 = nc_exec_expr(tl, st2)?;
+                    }
+                    return Ok(st2);
                 }
-            } else {
-                return Err(format!("unexpected statement `{}`", t));
+                Some(false) => continue,
+                None => return Err(format!("cannot decide `{}` against {:?}", scrut, b.pat)),
             }
         }
-        other => return Err(format!("unexpected statement `{}`", sm::tsc(other))),
+        return Ok(st);
+    }
+    match e {
+        syn::Expr::Block(b) => {
+            let stmts: Vec<&syn::Stmt> = b.block.stmts.iter().collect();
+            nc_exec(&stmts, st)
+        }
+        syn::Expr::Binary(b) if sm::tsc(&b.left) == "self.location" && matches!(b.op, syn::BinOp::AddAssign(_)) => {
+            st.incs.push(inc_value(&b.right, &st.char_vars));
+            Ok(st)
+        }
+        syn::Expr::Assign(a) => {
+            let l = sm::tsc(&a.left);
+            if st.vars.contains_key(&l) {
+                let v = match sm::tsc(&a.right).as_str() {
+                    "Some('\\n')" => Slot::Lf,
+                    "Some('\\r')" => Slot::Cr,
+                    "None" => Slot::Empty,
+                    other => return Err(format!("assignment of `{}`", other)),
+                };
+                st.vars.insert(l, v);
+                Ok(st)
+            } else {
+                Err(format!("assignment to `{}`", l))
+            }
+        }
+        syn::Expr::Path(_) => Ok(st),
+        _ => Err(format!("unexpected expression `{}`", t.chars().take(80).collect::<String>())),
+    }
+}
+
+struct NcPath {
+    class: &'static str,
+    slides: usize,
+    consts: u32,
+    of_char: usize,
+    unknown: Vec<String>,
+    ret: String,
+}
+
+fn next_char_paths(m: &syn::ImplItemFn) -> Result<Vec<NcPath>, String> {
+    let scenarios: [(&'static str, Slot, Slot); 4] = [("cr,lf", Slot::Cr, Slot::Lf), ("cr,!lf", Slot::Cr, Slot::NotLf), ("char", Slot::Char, Slot::Unknown), ("none", Slot::Empty, Slot::Unknown)];
+    let stmts: Vec<&syn::Stmt> = m.block.stmts.iter().collect();
+    let mut out = vec![];
+    for (class, w0, w1) in scenarios {
+        let st = NcState { w0, w1, slides: 0, incs: vec![], vars: BTreeMap::new(), char_vars: BTreeSet::new(), ret: None };
+        let end = nc_exec(&stmts, st).map_err(|e| format!("scenario [{}]: {}", class, e))?;
+        let mut consts = 0;
+        let mut of_char = 0;
+        let mut unknown = vec![];
+        for i in &end.incs {
+            match i {
+                Inc::Const(k) => consts += k,
+                Inc::OfChar => of_char += 1,
+                Inc::Unknown(t) => unknown.push(t.clone()),
+            }
+        }
+        let ret = match end.ret {
+            Some(Slot::Lf) => "Some('\\n')",
+            Some(Slot::Cr) => "Some('\\r')",
+            Some(Slot::Char) | Some(Slot::NotLf) => "the character",
+            Some(Slot::Empty) => "None",
+            _ => "?",
+        };
+        out.push(NcPath { class, slides: end.slides, consts, of_char, unknown, ret: ret.to_string() });
     }
     Ok(out)
 }
@@ -553,6 +613,10 @@ struct TState {
     opaque: bool,
     ended: bool,
     cfg_full_lexer: bool,
+    subst: BTreeMap<String, String>, // parameter -> argument text, inside an inlined helper
+    returned: bool,                  // an inlined helper has returned normally
+    depth: usize,
+    nz: bool,                        // nesting == 0 has been excluded on this path (a diverging `if nesting == 0`)
 }
 
 #[derive(Clone, Debug)]
@@ -606,12 +670,207 @@ fn some_char_pat(p: &syn::Pat) -> Option<Vec<char>> {
     None
 }
 
-fn interp_block(stmts: &[syn::Stmt], states: Vec<TState>, res: &mut ArmResult, guard: &Option<String>) -> Vec<TState> {
+
+// ------------------------------------------------------------------ branch normal form
+//
+// `if let P = S {A} else {B}`, `match S { P => A, _ => B }`, `if S == Some('x') {A} else {B}`, `if matches!(S, P) {A} else {B}`
+// and `if S.is_none() {A} else {B}` are the same decision; `while let P = S {A}` and `loop { match S { P => A, _ => break } }`
+// are the same loop. The interpreters below only ever see the normal form, so they do not depend on which spelling
+// the lexer uses.
+
+#[derive(Clone, Debug, PartialEq)]
+pub enum CPat {
+    /// Some(one of these characters)
+    Chars(BTreeSet<char>),
+    /// Some(_) / Some(binding)
+    AnySome(Option<String>),
+    NoneP,
+    Wild,
+    /// fixed-length window slice pattern [p0, p1, ..]
+    Slice(Vec<CPat>),
+    Other(String),
+}
+
+pub struct Branch<'a> {
+    pub pat: CPat,
+    pub guard: Option<&'a syn::Expr>,
+    pub body: Vec<&'a syn::Stmt>,
+    pub tail: Option<&'a syn::Expr>, // arm body that is a bare expression
+}
+
+fn opt_char_pat(p: &syn::Pat) -> CPat {
+    match p {
+        syn::Pat::Wild(_) => CPat::Wild,
+        syn::Pat::Ident(i) if i.ident == "None" => CPat::NoneP,
+        syn::Pat::Path(pp) if pp.path.is_ident("None") => CPat::NoneP,
+        syn::Pat::Paren(pp) => opt_char_pat(&pp.pat),
+        syn::Pat::TupleStruct(ts) if ts.path.is_ident("Some") && ts.elems.len() == 1 => match &ts.elems[0] {
+            syn::Pat::Wild(_) => CPat::AnySome(None),
+            syn::Pat::Ident(i) if i.subpat.is_none() => CPat::AnySome(Some(i.ident.to_string())),
+            inner => match crate::rules::c06::pat_chars(inner) {
+                Some(cs) => CPat::Chars(cs),
+                None => CPat::Other(sm::tsc(p)),
+            },
+        },
+        syn::Pat::Or(o) => {
+            // Some('a') | Some('b') | None ...
+            let mut set = BTreeSet::new();
+            for c in &o.cases {
+                match opt_char_pat(c) {
+                    CPat::Chars(cs) => set.extend(cs),
+                    _ => return CPat::Other(sm::tsc(p)),
+                }
+            }
+            CPat::Chars(set)
+        }
+        syn::Pat::Slice(sl) => CPat::Slice(sl.elems.iter().map(opt_char_pat).collect()),
+        _ => CPat::Other(sm::tsc(p)),
+    }
+}
+
+fn opt_char_expr(e: &syn::Expr) -> Option<CPat> {
+    // Some('x') / None / [Some('x'); 2]
+    match e {
+        syn::Expr::Call(c) if sm::tsc(&c.func) == "Some" && c.args.len() == 1 => tables::lit_char(&c.args[0]).map(|ch| CPat::Chars([ch].into_iter().collect())),
+        syn::Expr::Path(p) if p.path.is_ident("None") => Some(CPat::NoneP),
+        syn::Expr::Repeat(r) => {
+            let n: usize = sm::tsc(&r.len).parse().ok()?;
+            let one = opt_char_expr(&r.expr)?;
+            Some(CPat::Slice(vec![one; n]))
+        }
+        syn::Expr::Array(a) => Some(CPat::Slice(a.elems.iter().map(|x| opt_char_expr(x)).collect::<Option<Vec<_>>>()?)),
+        syn::Expr::Paren(p) => opt_char_expr(&p.expr),
+        _ => None,
+    }
+}
+
+/// A two-way test in normal form: (scrutinee text, pattern, negated).
+pub fn test_of(cond: &syn::Expr) -> Option<(String, CPat, bool)> {
+    match cond {
+        syn::Expr::Paren(p) => test_of(&p.expr),
+        syn::Expr::Let(l) => Some((sm::tsc(&l.expr), opt_char_pat(&l.pat), false)),
+        syn::Expr::Unary(u) if matches!(u.op, syn::UnOp::Not(_)) => test_of(&u.expr).map(|(s, p, n)| (s, p, !n)),
+        syn::Expr::Binary(b) if matches!(b.op, syn::BinOp::Eq(_) | syn::BinOp::Ne(_)) => {
+            let neg = matches!(b.op, syn::BinOp::Ne(_));
+            if let Some(p) = opt_char_expr(&b.right) {
+                Some((sm::tsc(&b.left), p, neg))
+            } else {
+                opt_char_expr(&b.left).map(|p| (sm::tsc(&b.right), p, neg))
+            }
+        }
+        syn::Expr::Macro(m) if m.mac.path.is_ident("matches") => {
+            let parsed = m.mac.parse_body_with(|input: syn::parse::ParseStream| {
+                let e: syn::Expr = input.parse()?;
+                input.parse::<syn::Token![,]>()?;
+                let p = syn::Pat::parse_multi_with_leading_vert(input)?;
+                Ok((e, p))
+            });
+            parsed.ok().map(|(e, p)| (sm::tsc(&e), opt_char_pat(&p), false))
+        }
+        syn::Expr::MethodCall(mc) if mc.args.is_empty() && (mc.method == "is_none" || mc.method == "is_some") => {
+            Some((sm::tsc(&mc.receiver), if mc.method == "is_none" { CPat::NoneP } else { CPat::AnySome(None) }, false))
+        }
+        _ => None,
+    }
+}
+
+fn body_of<'a>(e: &'a syn::Expr) -> (Vec<&'a syn::Stmt>, Option<&'a syn::Expr>) {
+    match e {
+        syn::Expr::Block(b) => (b.block.stmts.iter().collect(), None),
+        other => (vec![], Some(other)),
+    }
+}
+
+/// Normal form of a decision on an `Option<char>` window slot: (scrutinee, branches). `None` if `e` is not such a decision.
+pub fn branches<'a>(e: &'a syn::Expr) -> Option<(String, Vec<Branch<'a>>)> {
+    match e {
+        syn::Expr::Match(m) => {
+            let mut out = vec![];
+            for arm in &m.arms {
+                let (body, tail) = body_of(&arm.body);
+                out.push(Branch { pat: opt_char_pat(&arm.pat), guard: arm.guard.as_ref().map(|g| &*g.1), body, tail });
+            }
+            Some((sm::tsc(&m.expr), out))
+        }
+        syn::Expr::If(i) => {
+            let (scrut, pat, neg) = test_of(&i.cond)?;
+            let then_b = Branch { pat: pat.clone(), guard: None, body: i.then_branch.stmts.iter().collect(), tail: None };
+            let (eb, et) = match &i.else_branch {
+                Some((_, el)) => body_of(el),
+                None => (vec![], None),
+            };
+            let else_b = Branch { pat: CPat::Wild, guard: None, body: eb, tail: et };
+            if neg {
+                // if S != P {A} else {B}  ==  match S { P => B, _ => A }
+                Some((scrut, vec![Branch { pat, guard: None, body: else_b.body, tail: else_b.tail }, Branch { pat: CPat::Wild, guard: None, body: then_b.body, tail: None }]))
+            } else {
+                Some((scrut, vec![then_b, else_b]))
+            }
+        }
+        _ => None,
+    }
+}
+
+/// Normal form of a skipping loop: `while let P = S { body }` / `loop { match S { P => body, _ => break } }` /
+/// `while matches!(S, P) { body }`: (scrutinee, pattern, body).
+pub fn skip_loop<'a>(e: &'a syn::Expr) -> Option<(String, CPat, Vec<&'a syn::Stmt>)> {
+    match e {
+        syn::Expr::While(w) => {
+            let (s, p, neg) = test_of(&w.cond)?;
+            if neg {
+                return None;
+            }
+            Some((s, p, w.body.stmts.iter().collect()))
+        }
+        syn::Expr::Loop(l) => {
+            if l.body.stmts.len() != 1 {
+                return None;
+            }
+            let inner = match &l.body.stmts[0] {
+                syn::Stmt::Expr(x, _) => x,
+                _ => return None,
+            };
+            let (s, brs) = branches(inner)?;
+            if brs.len() != 2 {
+                return None;
+            }
+            let is_break = |b: &Branch| (b.body.len() == 1 && sm::tsc(b.body[0]).trim_end_matches(';') == "break") || b.tail.map_or(false, |t| sm::tsc(t) == "break");
+            if is_break(&brs[1]) && matches!(brs[1].pat, CPat::Wild) && !is_break(&brs[0]) {
+                let mut body = brs[0].body.clone();
+                if body.is_empty() {
+                    // a bare-expression arm: keep as a synthetic statement is not possible; treat as unknown
+                    return None;
+                }
+                Some((s, brs[0].pat.clone(), std::mem::take(&mut body)))
+            } else {
+                None
+            }
+        }
+        _ => None,
+    }
+}
+
+thread_local! {
+    /// the lexer's methods, for inlining private helpers called from the interpreted arms
+    static LEXER_FNS: std::cell::RefCell<BTreeMap<String, syn::ImplItemFn>> = std::cell::RefCell::new(BTreeMap::new());
+}
+
+fn register_lexer(lx: &Src) {
+    LEXER_FNS.with(|r| {
+        let mut m = r.borrow_mut();
+        m.clear();
+        for (f, _) in lexer_methods(lx) {
+            m.insert(f.sig.ident.to_string(), f.clone());
+        }
+    });
+}
+
+fn interp_block(stmts: &[&syn::Stmt], states: Vec<TState>, res: &mut ArmResult, guard: &Option<String>) -> Vec<TState> {
     let mut cur = states;
     for s in stmts {
         let mut next = vec![];
         for st in cur {
-            if st.ended {
+            if st.ended || st.returned {
                 next.push(st);
                 continue;
             }
@@ -640,6 +899,10 @@ fn consume(st: &mut TState) -> bool {
             was
         }
     }
+}
+
+fn subst(st: &TState, text: String) -> String {
+    st.subst.get(&text).cloned().unwrap_or(text)
 }
 
 fn interp_stmt(s: &syn::Stmt, mut st: TState, res: &mut ArmResult, guard: &Option<String>) -> Vec<TState> {
@@ -676,6 +939,9 @@ fn interp_stmt(s: &syn::Stmt, mut st: TState, res: &mut ArmResult, guard: &Optio
         }
         syn::Stmt::Expr(e, _) => interp_expr(e, st, res, guard, false),
         syn::Stmt::Macro(m) => {
+            if m.mac.path.is_ident("debug_assert") || m.mac.path.is_ident("debug_assert_eq") {
+                return vec![st];
+            }
             res.unrecognised.push(format!("macro {}", sm::tsc(&m.mac.path)));
             vec![st]
         }
@@ -683,8 +949,81 @@ fn interp_stmt(s: &syn::Stmt, mut st: TState, res: &mut ArmResult, guard: &Optio
     }
 }
 
+fn run_branch(b: &Branch, st: TState, res: &mut ArmResult, guard: &Option<String>) -> Vec<TState> {
+    let mut out = interp_block(&b.body, vec![st], res, guard);
+    if let Some(t) = b.tail {
+        let mut next = vec![];
+        for s2 in out {
+            if s2.ended || s2.returned {
+                next.push(s2);
+            } else {
+                next.extend(interp_expr(t, s2, res, guard, false));
+            }
+        }
+        out = next;
+    }
+    out
+}
+
 fn interp_expr(e: &syn::Expr, mut st: TState, res: &mut ArmResult, guard: &Option<String>, gated: bool) -> Vec<TState> {
     let t = sm::tsx(e);
+    // ---- decisions on the character window, in normal form
+    if let Some((scrut, pat, body)) = skip_loop(e) {
+        let only_next_char = body.len() == 1 && sm::tsc(body[0]).trim_end_matches(';') == "self.next_char()";
+        if scrut == "self.window[0]" && only_next_char && matches!(pat, CPat::Chars(_)) {
+            st.spelled.push('*');
+            st.known = vec![];
+            st.established = false;
+            return vec![st];
+        }
+        res.unrecognised.push(format!("loop on {}", scrut));
+        return vec![st];
+    }
+    if let Some((scrut, brs)) = branches(e) {
+        if scrut == "self.window[0]" || scrut == "self.window[1]" || scrut == "self.window[..2]" || scrut == "self.window[..3]" {
+            let mut out = vec![];
+            for b in &brs {
+                let mut s2 = st.clone();
+                if b.guard.is_some() {
+                    res.unrecognised.push(format!("guarded arm on {}", scrut));
+                }
+                if scrut == "self.window[1]" {
+                    // look-ahead only: no state change
+                } else {
+                    match &b.pat {
+                        CPat::Chars(cs) => {
+                            s2.known = if cs.len() == 1 { vec![Some(*cs.iter().next().unwrap())] } else { vec![] };
+                            s2.established = true;
+                        }
+                        CPat::AnySome(_) => {
+                            s2.known = vec![];
+                            s2.established = true;
+                        }
+                        CPat::Slice(ps) => {
+                            let mut kn = vec![];
+                            for p in ps {
+                                match p {
+                                    CPat::Chars(cs) if cs.len() == 1 => kn.push(Some(*cs.iter().next().unwrap())),
+                                    _ => break,
+                                }
+                            }
+                            s2.established = matches!(ps.first(), Some(CPat::Chars(_)) | Some(CPat::AnySome(_)));
+                            s2.known = kn;
+                        }
+                        CPat::NoneP | CPat::Wild => {
+                            s2.known = vec![];
+                            s2.established = false;
+                        }
+                        CPat::Other(p) => {
+                            res.unrecognised.push(format!("match arm pattern {}", p));
+                        }
+                    }
+                }
+                out.extend(run_branch(b, s2, res, guard));
+            }
+            return out;
+        }
+    }
     match e {
         syn::Expr::MethodCall(mc) if sm::tsc(&mc.receiver) == "self" => {
             let m = mc.method.to_string();
@@ -696,8 +1035,9 @@ fn interp_expr(e: &syn::Expr, mut st: TState, res: &mut ArmResult, guard: &Optio
                     }
                     vec![st]
                 }
+                "get_pos" => vec![st],
                 "eat_single_char" => {
-                    let tok = sm::tsc(&mc.args[0]).trim_start_matches("Tok::").to_string();
+                    let tok = subst(&st, sm::tsc(&mc.args[0])).trim_start_matches("Tok::").to_string();
                     let s_at = st.k;
                     if !consume(&mut st) {
                         res.unrecognised.push("eat_single_char with no character established".into());
@@ -710,15 +1050,21 @@ fn interp_expr(e: &syn::Expr, mut st: TState, res: &mut ArmResult, guard: &Optio
                     let arg = &mc.args[0];
                     if let syn::Expr::Tuple(tp) = arg {
                         if tp.elems.len() == 2 {
-                            let tok_t = sm::tsc(&tp.elems[0]);
+                            let tok_t = subst(&st, sm::tsc(&tp.elems[0]));
                             let tok: String = tok_t.trim_start_matches("Tok::").chars().take_while(|c| c.is_alphanumeric()).collect();
                             let (mut s_ok, mut e_ok) = (false, false);
                             if let syn::Expr::Call(c) = &tp.elems[1] {
                                 if sm::tsc(&c.func) == "TextRange::new" && c.args.len() == 2 {
-                                    let a = sm::tsc(&c.args[0]);
-                                    let b = sm::tsc(&c.args[1]);
-                                    s_ok = st.vars.get(&a) == Some(&0);
-                                    e_ok = st.vars.get(&b) == Some(&st.k);
+                                    let pos_of = |x: &syn::Expr, st: &TState| -> Option<usize> {
+                                        let t = sm::tsc(x);
+                                        if t == "self.get_pos()" {
+                                            Some(st.k)
+                                        } else {
+                                            st.vars.get(&t).copied()
+                                        }
+                                    };
+                                    s_ok = pos_of(&c.args[0], &st) == Some(0);
+                                    e_ok = pos_of(&c.args[1], &st) == Some(st.k);
                                 }
                             }
                             res.emits.push(Emit { tok, spelled: st.spelled.clone(), s_ok, e_ok, line: sm::line(mc.method.span()), nesting_guard: guard.clone(), full_lexer_only: attrs_gated || st.cfg_full_lexer });
@@ -739,95 +1085,73 @@ fn interp_expr(e: &syn::Expr, mut st: TState, res: &mut ArmResult, guard: &Optio
                         res.opaque_calls.push(t.text.clone());
                         return vec![st];
                     }
+                    // a private helper of the lexer: interpret its body in place
+                    let callee = LEXER_FNS.with(|r| r.borrow().get(other).cloned());
+                    if let (Some(f), true) = (callee, st.depth < 3) {
+                        let params: Vec<String> = f.sig.inputs.iter().filter_map(|a| if let syn::FnArg::Typed(pt) = a { Some(sm::tsc(&pt.pat)) } else { None }).collect();
+                        let saved_subst = st.subst.clone();
+                        let saved_vars = st.vars.clone();
+                        for (p, a) in params.iter().zip(mc.args.iter()) {
+                            let at = subst(&st, sm::tsc(a));
+                            st.subst.insert(p.clone(), at);
+                        }
+                        st.depth += 1;
+                        let stmts: Vec<&syn::Stmt> = f.block.stmts.iter().collect();
+                        let outs = interp_block(&stmts, vec![st], res, guard);
+                        return outs
+                            .into_iter()
+                            .map(|mut o| {
+                                o.returned = false;
+                                o.depth -= 1;
+                                o.subst = saved_subst.clone();
+                                // positions taken in the helper stay valid only there
+                                let k_vars: BTreeMap<String, usize> = saved_vars.clone();
+                                o.vars = k_vars;
+                                o
+                            })
+                            .collect();
+                    }
                     res.unrecognised.push(format!("self.{}()", other));
                     vec![st]
                 }
             }
         }
         syn::Expr::Try(tr) => interp_expr(&tr.expr, st, res, guard, gated),
-        syn::Expr::Match(m) if sm::tsc(&m.expr) == "self.window[0]" => {
-            let mut out = vec![];
-            let mut excluded: Vec<char> = vec![];
-            for arm in &m.arms {
-                let mut s2 = st.clone();
-                if let Some(chars) = some_char_pat(&arm.pat) {
-                    excluded.extend(chars.iter());
-                    if chars.len() == 1 {
-                        s2.known = vec![Some(chars[0])];
-                    } else {
-                        s2.known = vec![];
-                    }
-                    s2.established = true;
-                } else if sm::tsc(&arm.pat) == "_" {
-                    s2.known = vec![];
-                    s2.established = false;
-                } else {
-                    res.unrecognised.push(format!("match arm pattern {}", sm::tsc(&arm.pat)));
-                }
-                out.extend(interp_body(&arm.body, s2, res, guard));
-            }
-            out
-        }
+        syn::Expr::Paren(p) => interp_expr(&p.expr, st, res, guard, gated),
         syn::Expr::If(i) => {
             let c = sm::tsc(&i.cond);
-            let mut then_st = st.clone();
-            let mut else_st = st.clone();
+            let then_st = st.clone();
+            let else_st = st.clone();
             let mut guard_then = guard.clone();
             let mut guard_else = guard.clone();
-            let mut recognised = true;
-            if let syn::Expr::Let(l) = &*i.cond {
-                let scrut = sm::tsc(&l.expr);
-                if scrut == "self.window[0]" {
-                    if let Some(chars) = some_char_pat(&l.pat) {
-                        then_st.known = if chars.len() == 1 { vec![Some(chars[0])] } else { vec![] };
-                        then_st.established = true;
-                        else_st.known = vec![];
-                        else_st.established = false;
-                    } else {
-                        recognised = false;
-                    }
-                } else if scrut == "self.window[1]" {
-                    // look-ahead only: no state change; then-branch is opaque dispatch
-                } else {
-                    recognised = false;
-                }
-            } else if c.starts_with("self.window[..2]==[Some('") && c.ends_with("');2]") {
-                let ch = c.trim_start_matches("self.window[..2]==[Some('").trim_end_matches("');2]").chars().next().unwrap_or('?');
-                then_st.known = vec![Some(ch), Some(ch)];
-                then_st.established = true;
-            } else if c == "self.nesting==0" {
+            if c == "self.nesting==0" || c == "0==self.nesting" {
                 guard_then = Some("nesting==0".into());
                 guard_else = Some("nesting!=0".into());
-            } else if c == "self.window[0].is_none()" {
-                then_st.established = false;
+            } else if c == "self.nesting!=0" || c == "self.nesting>0" || c == "0!=self.nesting" {
+                guard_then = Some("nesting!=0".into());
+                guard_else = Some("nesting==0".into());
             } else if c == "is_emoji_presentation(c)" {
                 // both branches keep the established char
             } else {
-                recognised = false;
-            }
-            if !recognised {
                 res.unrecognised.push(format!("if {}", c));
             }
-            let mut out = interp_block(&i.then_branch.stmts, vec![then_st], res, &guard_then);
+            let then_stmts: Vec<&syn::Stmt> = i.then_branch.stmts.iter().collect();
+            let mut out = interp_block(&then_stmts, vec![then_st], res, &guard_then);
+            let then_diverges = out.iter().all(|s| s.ended);
+            let mut else_st = else_st;
+            if guard_then.as_deref() == Some("nesting==0") && guard.as_deref() != Some("nesting==0") {
+                else_st.nz = true;
+            }
+            let _ = then_diverges;
             match &i.else_branch {
                 Some((_, el)) => out.extend(interp_body(el, else_st, res, &guard_else)),
                 None => out.push(else_st),
             }
             out
         }
-        syn::Expr::Block(b) => interp_block(&b.block.stmts, vec![st], res, guard),
-        syn::Expr::While(w) => {
-            // `while let Some(' ' | '\t' | '\x0C') = self.window[0] { self.next_char(); }` : whitespace skipping
-            let c = sm::tsc(&w.cond);
-            let body = sm::tsc(&w.body);
-            if c.starts_with("letSome(") && c.ends_with("=self.window[0]") && body == "{self.next_char();}" {
-                st.spelled.push('*');
-                st.known = vec![];
-                st.established = false;
-                return vec![st];
-            }
-            res.unrecognised.push(format!("while {}", c));
-            vec![st]
+        syn::Expr::Block(b) => {
+            let stmts: Vec<&syn::Stmt> = b.block.stmts.iter().collect();
+            interp_block(&stmts, vec![st], res, guard)
         }
         syn::Expr::Return(r) => {
             let rt = r.expr.as_ref().map(|x| sm::tsc(x)).unwrap_or_default();
@@ -837,12 +1161,28 @@ fn interp_expr(e: &syn::Expr, mut st: TState, res: &mut ArmResult, guard: &Optio
                 st.ended = true;
                 return vec![st];
             }
+            if rt.starts_with("Ok(") && st.depth > 0 {
+                st.returned = true;
+                return vec![st];
+            }
             res.unrecognised.push(format!("return {}", rt));
             st.ended = true;
             vec![st]
         }
+        syn::Expr::Call(c) if sm::tsc(&c.func) == "Ok" && st.depth > 0 => {
+            // tail `Ok(())` of an inlined helper
+            st.returned = true;
+            vec![st]
+        }
+        syn::Expr::Call(c) if sm::tsc(&c.func) == "Err" => {
+            let rt = t.text.clone();
+            let kind = rt.split("LexicalErrorType::").nth(1).map(|s| s.chars().take_while(|c| c.is_alphanumeric()).collect::<String>()).unwrap_or_default();
+            res.errors.push((kind, st.k));
+            st.ended = true;
+            vec![st]
+        }
         syn::Expr::Binary(b) if sm::tsc(&b.left) == "self.nesting" => {
-            res.nesting_ops.push(format!("{}@{}", sm::ts(&b.op), st.k));
+            res.nesting_ops.push(format!("{}@{}@{}{}", sm::ts(&b.op), st.k, sm::line(syn::spanned::Spanned::span(&b.op)), if st.nz { "/nz" } else { "" }));
             vec![st]
         }
         syn::Expr::Assign(a) if sm::tsc(&a.left) == "self.at_begin_of_line" => vec![st],
@@ -855,14 +1195,17 @@ fn interp_expr(e: &syn::Expr, mut st: TState, res: &mut ArmResult, guard: &Optio
 
 fn interp_body(e: &syn::Expr, st: TState, res: &mut ArmResult, guard: &Option<String>) -> Vec<TState> {
     match e {
-        syn::Expr::Block(b) => interp_block(&b.block.stmts, vec![st], res, guard),
+        syn::Expr::Block(b) => {
+            let stmts: Vec<&syn::Stmt> = b.block.stmts.iter().collect();
+            interp_block(&stmts, vec![st], res, guard)
+        }
         other => interp_expr(other, st, res, guard, false),
     }
 }
 
 /// Interpret one arm of consume_character. `chars` are the arm's pattern characters.
 pub fn interp_arm(arm: &syn::Arm) -> (Vec<char>, ArmResult) {
-    let chars = char_of_pat(&arm.pat).unwrap_or_default();
+    let chars: Vec<char> = crate::rules::c06::pat_chars(&arm.pat).map(|s| s.into_iter().collect()).unwrap_or_default();
     let mut res = ArmResult::default();
     let st = TState {
         k: 0,
@@ -873,12 +1216,17 @@ pub fn interp_arm(arm: &syn::Arm) -> (Vec<char>, ArmResult) {
         opaque: false,
         ended: false,
         cfg_full_lexer: false,
+        subst: BTreeMap::new(),
+        returned: false,
+        depth: 0,
+        nz: false,
     };
     // statements carrying #[cfg(feature = "full-lexer")] are interpreted with the flag set
-    let stmts: Vec<syn::Stmt> = match &*arm.body {
+    let owned: Vec<syn::Stmt> = match &*arm.body {
         syn::Expr::Block(b) => b.block.stmts.clone(),
         other => vec![syn::Stmt::Expr(other.clone(), None)],
     };
+    let stmts: Vec<&syn::Stmt> = owned.iter().collect();
     let ends = interp_block(&stmts, vec![st], &mut res, &None);
     // paths that end without emit/error
     let emitted_spellings: BTreeSet<String> = res.emits.iter().map(|e| e.spelled.clone()).collect();
@@ -891,6 +1239,7 @@ pub fn interp_arm(arm: &syn::Arm) -> (Vec<char>, ArmResult) {
 }
 
 pub fn consume_character_arms(lx: &Src) -> Option<(&syn::ImplItemFn, &syn::ExprMatch)> {
+    register_lexer(lx);
     let f = lexer_method(lx, "consume_character")?;
     let m = f.block.stmts.iter().find_map(|s| if let syn::Stmt::Expr(syn::Expr::Match(m), _) = s { Some(m) } else { None })?;
     Some((f, m))
@@ -1124,15 +1473,34 @@ pub fn newline_guards(cx: &mut Ctx, rule: &str) {
     if n_emit != 1 {
         cx.fail(rule, &format!("{}/line-break-arm/count", rule), &lx.rel, &format!("{} Newline emits in consume_character (1 expected)", n_emit));
     }
-    match method_block_text(&lx, "consume_normal") {
-        Some(t) => {
-            let p_err = t.find("ifself.nesting>0{returnErr(LexicalError{error:LexicalErrorType::Eof,location:tok_pos,});}");
-            let p_nl = t.find("if!self.at_begin_of_line{self.at_begin_of_line=true;self.emit((Tok::Newline,TextRange::empty(tok_pos)));}");
+    match lexer_method(&lx, "consume_normal") {
+        Some(f) => {
+            // statements of the end-of-input branch, in order: the first that mentions Eof must be a guarded
+            // `return Err(..Eof..)` on a positive nesting, and it must precede the statement that emits Newline
+            let mut eof_stmts: Vec<String> = vec![];
+            sm::for_each_expr_in_block(&f.block, |e| {
+                if eof_stmts.is_empty() {
+                    if let Some((scrut, brs)) = branches(e) {
+                        if scrut == "self.window[0]" {
+                            if let Some(b) = brs.iter().find(|b| matches!(b.pat, CPat::Wild | CPat::NoneP)) {
+                                eof_stmts = b.body.iter().map(|s| sm::tsc(*s)).collect();
+                            }
+                        }
+                    }
+                }
+            });
+            let positive = ["if0<self.nesting{", "ifself.nesting!=0{", "if0!=self.nesting{", "if1<=self.nesting{"];
+            let p_err = eof_stmts.iter().position(|t| positive.iter().any(|p| t.starts_with(p)) && t.contains("returnErr(") && t.contains("LexicalErrorType::Eof"));
+            let p_nl = eof_stmts.iter().position(|t| t.contains("Tok::Newline"));
+            let nl_ok = p_nl.map_or(false, |i| {
+                let t = &eof_stmts[i];
+                t.starts_with("if!self.at_begin_of_line{") && t.contains("self.at_begin_of_line=true;") && t.contains("self.emit((Tok::Newline,TextRange::empty(")
+            });
             match (p_err, p_nl) {
-                (Some(a), Some(b)) if a < b => cx.ok(rule, "end of input: Err(Eof) while brackets are open comes first; the closing Newline is empty and only added to an unterminated line"),
+                (Some(a), Some(b)) if a < b && nl_ok => cx.ok(rule, "end of input: Err(Eof) while brackets are open comes first; the closing Newline is empty and only added to an unterminated line"),
                 _ => cx.fail(rule, &format!("{}/eof", rule), &lx.rel, "end-of-input branch does not return Err(Eof) for open brackets before emitting the final Newline"),
             }
-            if t.matches("Tok::Newline").count() != 1 {
+            if sm::tsc(&f.block).matches("Tok::Newline").count() != 1 {
                 cx.fail(rule, &format!("{}/eof/count", rule), &lx.rel, "more than one Newline emit in consume_normal");
             }
         }
@@ -1151,7 +1519,9 @@ pub fn skip_set(cx: &mut Ctx, rule: &str) {
     cx.floor(rule, 20);
     let Some(lx) = load_lexer(cx, rule) else { return };
     let Some((_, m)) = consume_character_arms(&lx) else { return cx.anchor_missing(rule, "consume_character") };
-    let allowed_silent: BTreeSet<&str> = [" |\\t|\\u{c}", "\\\\", "\\n|\\r"].into_iter().collect();
+    let ws_set: BTreeSet<char> = [' ', '\t', '\x0C'].into_iter().collect();
+    let bs_set: BTreeSet<char> = ['\\'].into_iter().collect();
+    let nl_set: BTreeSet<char> = ['\n', '\r'].into_iter().collect();
     for arm in &m.arms {
         let (chars, res) = interp_arm(arm);
         let arm_name: String = if chars.is_empty() { sm::tsc(&arm.pat) } else { chars.iter().map(|c| c.escape_default().to_string()).collect::<Vec<_>>().join("|") };
@@ -1185,12 +1555,15 @@ pub fn skip_set(cx: &mut Ctx, rule: &str) {
             }
             continue;
         }
-        if allowed_silent.contains(arm_name.as_str()) {
+        let cset: BTreeSet<char> = chars.iter().copied().collect();
+        if cset == ws_set || cset == bs_set || cset == nl_set {
             // the silent path must consume only the arm's own class of characters
-            let detail = match arm_name.as_str() {
-                "\\\\" => res.silent_paths.iter().all(|(sp, k)| *k == 2 && sp.starts_with('\\')) && res.errors.iter().any(|(e, _)| e == "LineContinuationError"),
-                "\\n|\\r" => res.silent_paths.iter().all(|(_, k)| *k == 1),
-                _ => res.silent_paths.iter().all(|(sp, _)| sp.ends_with('*')),
+            let detail = if cset == bs_set {
+                res.silent_paths.iter().all(|(sp, k)| *k == 2 && sp.starts_with('\\')) && res.errors.iter().any(|(e, _)| e == "LineContinuationError")
+            } else if cset == nl_set {
+                res.silent_paths.iter().all(|(_, k)| *k == 1)
+            } else {
+                res.silent_paths.iter().all(|(sp, k)| sp.ends_with('*') && *k == 1)
             };
             if detail {
                 cx.ok(rule, &format!("arm `{}`: layout consumed without a token", arm_name));
@@ -1207,19 +1580,23 @@ pub fn skip_set(cx: &mut Ctx, rule: &str) {
     match lexer_method(&lx, "eat_indentation") {
         None => cx.anchor_missing(rule, "Lexer::eat_indentation"),
         Some(f) => {
-            let mut arms: Vec<String> = vec![];
+            let mut arms: Vec<CPat> = vec![];
             sm::for_each_expr_in_block(&f.block, |e| {
-                if let syn::Expr::Match(m) = e {
-                    if sm::tsc(&m.expr) == "self.window[0]" && arms.is_empty() {
-                        arms = m.arms.iter().map(|a| sm::tsc(&a.pat)).collect();
+                if arms.is_empty() {
+                    if let Some((scrut, brs)) = branches(e) {
+                        if scrut == "self.window[0]" {
+                            arms = brs.iter().map(|b| b.pat.clone()).collect();
+                        }
                     }
                 }
             });
-            let want = vec!["Some(' ')", "Some('\\t')", "Some('#')", "Some('\\x0C')", "Some('\\n'|'\\r')", "None", "_"];
-            if arms == want {
+            let cls = |cs: &[char]| CPat::Chars(cs.iter().copied().collect());
+            let want = vec![cls(&[' ']), cls(&['\t']), cls(&['#']), cls(&['\x0C']), cls(&['\n', '\r']), CPat::NoneP, CPat::Wild];
+            let same = arms.len() == want.len() && want.iter().all(|w| arms.contains(w)) && arms.last() == Some(&CPat::Wild);
+            if same {
                 cx.ok(rule, "eat_indentation consumes exactly space, tab, comment, form feed and blank-line breaks");
             } else {
-                cx.fail(rule, &format!("{}/eat_indentation/arms", rule), &lx.loc(f), &format!("eat_indentation arms are {:?}", arms));
+                cx.fail(rule, &format!("{}/eat_indentation/arms", rule), &lx.loc(f), &format!("eat_indentation decides on {:?}", arms));
             }
         }
     }
